@@ -1301,6 +1301,38 @@ static void fref_program(uint64_t seed)
       t1.base += 3;
       ok = ok && f(x) == g(x) && t0.calls == t1.calls;
       VF_CHECK(ok, "fref-result", "stateful-functor", "results or call count differ from std::function(std::ref)");
+      // A copy refers to the callable, not to the function_ref it was copied from: it keeps working after the
+      // source has been re-bound to another callable or destroyed.  Copies are taken from a non-const lvalue, a
+      // const lvalue and an rvalue, by direct and copy initialisation and into a container.
+      {
+        using FR = nostd::function_ref<int(int)>;
+        Acc other{t0.base + 100, 0};
+        alignas(FR) unsigned char store[sizeof(FR)];
+        FR *src = new (store) FR(t0);
+        const FR csrc(t0);
+        FR c1(*src);
+        FR c2 = *src;
+        FR c3(csrc);
+        FR tmp(*src);
+        FR c4(std::move(tmp));
+        std::vector<FR> vec;
+        vec.emplace_back(*src);
+        vec.push_back(*src);
+        auto *heap_src = new FR(t0);
+        FR c5(*heap_src);
+        delete heap_src;  // this source is gone
+        src->~FR();       // and the other one's storage now holds a reference to another callable
+        src = new (store) FR(other);
+        bool ok2 = true;
+        FR *all[] = {&c1, &c2, &c3, &c4, &vec[0], &vec[1], &c5};
+        for (auto *c : all)
+          ok2 = ok2 && (*c)(x) == g(x);
+        ok2 = ok2 && t0.calls == t1.calls && other.calls == 0 && (*src)(x) != 0x7fffffff && other.calls == 1;
+        src->~FR();
+        R.count("fref_copies_outliving_or_rebound_source", 7);
+        VF_CHECK(ok2, "fref-copy-refers-to-callable", "source-rebound-or-destroyed",
+                 "a copy of a function_ref followed its source instead of the callable");
+      }
     }
     else if (kind < 40)
     {
